@@ -12,7 +12,7 @@ import Heathcliff.Proofs.Codec
 import Heathcliff.Proofs.Sink
 import Heathcliff.Proofs.SinkI
 import Heathcliff.Model.CodecGen
-import Heathcliff.Proofs.GenSerK
+import Heathcliff.Proofs.GenSerS
 namespace HC.C15
 open HC.Codec
 
@@ -220,6 +220,20 @@ theorem gen_params_writer_interrupt_safe (p : Params) (hp : p.scheme < 256) (w :
     refine ⟨fun m hm' => ?_, fun e he => ?_⟩
     · simp [HC.GS.liftIOI] at hm'
     · exact hc.2 e0 rfl
+
+/-- SECOND ROUND, READERS.  Prefix monotonicity of the generated reader programs (`RMono`: success on `p ++ t` implies, on `p`, the same
+    success or `UnexpectedEof`) turns "accepts the full encoding" into the truncation clause: generated `Ciphertext::deserialize_full` on
+    every strict prefix of a valid encoding returns `Err(UnexpectedEof)` — no object, no panic -/
+theorem gen_ct_full_reader_truncation : type_of% @HC.GS.c15g_ct_full_reader_truncation := @HC.GS.c15g_ct_full_reader_truncation
+
+/-- PARTIAL for the compact format: the generated compact `Ciphertext::deserialize` (windows, `chunks_mut`, indexed stores, `unwrap`)
+    answers `UnexpectedEof` on every strict prefix of ANY stream it accepts completely; that it accepts every valid encoding is
+    `C14.GenCtSourceRoundTripStatement` (not proved; exercised by the correspondence cases) -/
+theorem gen_ct_reader_truncation_partial :
+    type_of% @HC.GS.c15g_ct_reader_truncation_partial := @HC.GS.c15g_ct_reader_truncation_partial
+
+/-- the general principle (any prefix-monotone reader, any stream it consumes completely) -/
+theorem gen_reader_truncation_of_monotone : type_of% @HC.GS.gm_truncation := @HC.GS.gm_truncation
 
 /-- not an I/O fault, recorded: `write_u64_limited` with a value that does not fit writes the truncated bytes, then panics -/
 theorem gen_limited_writer_panics_after_writing :
